@@ -52,6 +52,11 @@ def trait_mutations(rng, c):
         mk = lambda repl: [repl if j == i else x for j, x in enumerate(base_blocks)]
         b, items, uns, tn = base_blocks[i]
         yield ('other_trait@%d' % i, "Doesn't match trait definition", render(mk((b, items, uns, 'Other'))), split)
+        # round 10 (seed C14j): the other trait named through a path, or carrying generic arguments
+        # (the comparison is on the LAST segment's identifier, whatever the shape of the path)
+        if not b.trait_args:
+            yield ('other_trait_path@%d' % i, "Doesn't match trait definition", render(mk((b, items, uns, 'self::Other'))), split)
+            yield ('other_trait_generic@%d' % i, "Doesn't match trait definition", render(mk((b, items, uns, 'OtherG<u8>'))), split)
         yield ('missing_item@%d' % i, 'Missing in one of the impls', render(mk((b, [x for x in items if 'NAME' not in x] or ['    const ID: u8 = 9;'], uns, tn))), fam)
         yield ('extra_const@%d' % i, 'Not found in trait definition', render(mk((b, items + ['    const EXTRA: u8 = 1;'], uns, tn))), fam)
         yield ('extra_fn@%d' % i, 'Not found in trait definition', render(mk((b, items + ['    fn nickname() -> u8 { 1 }'], uns, tn))), fam)
@@ -156,7 +161,7 @@ def nested_inherent_bases(rng):
 
 def program(kind, c, invocation):
     if kind == 'trait':
-        src = gp.PRELUDE + 'pub trait Other { const NAME: &\'static str; }\n' + gp.world_text(c.world)
+        src = gp.PRELUDE + 'pub trait Other { const NAME: &\'static str; }\npub trait OtherG<P> { const NAME: &\'static str; }\n' + gp.world_text(c.world)
         src += 'disjoint_impls! {\n%s}\n' % invocation
         ty = c.probes[0][1]
         src += 'fn main() { let _ = <%s as K>::NAME; }\n' % ty
